@@ -50,6 +50,21 @@ CHECKS = {
             "Proof: after any sequence of (successful or failed) registrations of any kind the redundant lookup tables agree (c12_register_inv); data obligations re-checked each run by vm_compute: registered count = census count, "
             "sorted census = Names(), uniqueness across kinds, sortedness, per-lint well-formedness, every lint package blank-imported, dumped tables = model tables.",
             "DESIGN.md 5/C12", "The census is syntactic (go/parser over v3/lints, build constraints honoured)."),
+    "C14": (True, "Coq theorems on the status label codec and on UTF-8 sanitising (idempotent, identity on valid text) + in-Coq correspondence with LintStatus.{String,MarshalJSON,UnmarshalJSON} and encoding/json round trips",
+            "Proof: the eight labels are pairwise distinct, encoding then decoding a status returns it, anything the decoder accepts is a label (unknown labels rejected), out-of-range values have the empty label and do not decode; "
+            "a result survives the round trip with its status and its details passed through the string codec; sanitize (each invalid byte -> U+FFFD) is total, yields valid UTF-8, is the identity on valid UTF-8 and idempotent; "
+            "the listing has one line per lint in certificate/OCSP/CRL order. encoding/json itself is an oracle: that its round trip equals sanitize is checked differentially on generated byte strings and corpus result sets.",
+            "DESIGN.md 5/C14", "encoding/json is not modelled (oracle, sampled)."),
+    "C16": (True, "Coq theorems over Z for every RSA predicate, trial division under a kernel-checked table obligation, Fermat soundness/completeness + in-Coq correspondence on re-keyed certificates",
+            "Proof: each key-quality lint's Execute, as a function of (N, e), reports iff its arithmetic predicate holds (bit-length minima as N < 2^(k-1), bit length mod 8, parity, a factor in [2,751] given the data obligation "
+            "primes_complete on the table regenerated from the build, exponent parity / < 3 / = 1 / < 65537); any Fermat factorisation reported multiplies back to N and two same-parity factors within the round budget are always found. "
+            "Tied to the code by certificates whose SPKI carries chosen (N, e) through crypto/x509 and the zcrypto parser, evaluated by the real lints and by the model in Coq.",
+            "DESIGN.md 5/C16", "CheckApplies of the dated lints is observed, not modelled (cases are those on which the lint applies)."),
+    "C19": (True, "Coq theorems over N (CIDR nesting, completeness, monotonicity, single-address equivalence, soundness) under kernel-checked table obligations + in-Coq correspondence on addresses, networks and lints",
+            "Proof: for every address and every canonical CIDR network: a network containing a reserved address intersects, super-nets of intersecting networks intersect, a single-address network answers like the address test, "
+            "and intersects only fires on networks that contain a reserved address - given the obligations table_wf and table_closed over the network table regenerated from the build (table_closed is what failed for 127/8 before the fix); "
+            "every special-purpose block of the statement is reserved in full and the listed public addresses are not (data obligations).",
+            "DESIGN.md 5/C19", "Non-canonical bases and non-contiguous masks are outside the property's quantifier."),
 }
 
 REASON_PENDING = "check not built yet in this session; planned (see DESIGN.md section 5)"
